@@ -191,4 +191,340 @@ theorem app_start_once (n : Nat) (ops : List AOp) : begins true (App.run n ops).
     ops
   rcases h with ⟨_, h⟩ | ⟨_, h⟩ <;> omega
 
+private theorem begin_stop_step (a : App) (op : AOp) (h : AEv.begin false ∈ (a.step op).2) : a.st = .normal := by
+  cases op with
+  | start =>
+    by_cases hp : a.st = .prepared <;> simp [App.step, hp] at h
+  | stop =>
+    by_cases hn : a.st = .normal
+    · exact hn
+    · simp [App.step, hn] at h
+  | call ph w b =>
+    simp only [App.step] at h
+    cases hml : (if ph = true then a.startML else a.stopML) with
+    | none => rw [hml] at h; simp at h
+    | some ml => rw [hml] at h; simp at h
+
+private theorem start_success_step (a : App) (op : AOp) :
+    (((a.step op).1.st = .normal ∨ (a.step op).1.st = .stoping ∨ (a.step op).1.st = .stopped) →
+      (a.st = .normal ∨ a.st = .stoping ∨ a.st = .stopped) ∨ a.stopML ≠ none ∨
+        AEv.ev true (Ev.finish true) ∈ (a.step op).2) ∧
+    ((a.step op).1.stopML ≠ none → a.stopML ≠ none ∨ a.st = .normal) := by
+  cases op with
+  | start =>
+    by_cases hp : a.st = .prepared
+    · simp only [App.step, hp, ne_eq, not_true_eq_false, ↓reduceIte]
+      rcases onEvents_cases true (filter a.n true).2 { a with st := .starting, startML := some (filter a.n true).1 } with ⟨_, h⟩ | ⟨hm, h⟩
+      · rw [h]; simp
+      · rw [h]; refine ⟨fun _ => .inr (.inr ?_), by simp⟩
+        simp [hm]
+    · simp only [App.step, hp, ne_eq, not_false_eq_true, ↓reduceIte]
+      exact ⟨fun h => .inl h, fun h => .inl h⟩
+  | stop =>
+    by_cases hn : a.st = .normal
+    · exact ⟨fun _ => .inl (.inl hn), fun _ => .inr hn⟩
+    · simp only [App.step, hn, ne_eq, not_false_eq_true, ↓reduceIte]
+      exact ⟨fun h => .inl h, fun h => .inl h⟩
+  | call ph w b =>
+    simp only [App.step]
+    cases hml : (if ph = true then a.startML else a.stopML) with
+    | none => exact ⟨fun h => .inl h, fun h => .inl h⟩
+    | some ml =>
+      simp only
+      cases ph with
+      | true =>
+        simp only [↓reduceIte]
+        rcases onEvents_cases true (ml.next b).2 { a with startML := some (ml.next b).1 } with ⟨_, h⟩ | ⟨hm, h⟩
+        · rw [h]; exact ⟨fun h => .inl h, fun h => .inl h⟩
+        · rw [h]; refine ⟨fun _ => .inr (.inr ?_), fun h => .inl h⟩
+          simp [hm]
+      | false =>
+        have hs : a.stopML ≠ none := by simp at hml; rw [hml]; simp
+        exact ⟨fun _ => .inr (.inl hs), fun _ => .inl hs⟩
+
+/-- For every history: the application reaches Normal (and Stoping/Stopped) only after the
+start phase reported success, and a stop phase is begun only *after* that report. -/
+theorem app_stop_only_after_start_success (n : Nat) (ops : List AOp) :
+    (((App.run n ops).1.st = .normal ∨ (App.run n ops).1.st = .stoping ∨ (App.run n ops).1.st = .stopped) →
+      AEv.ev true (Ev.finish true) ∈ (App.run n ops).2) ∧
+    (∀ p q, (App.run n ops).2 = p ++ AEv.begin false :: q → AEv.ev true (Ev.finish true) ∈ p) := by
+  have h := App.run_induction n
+    (fun a tr _ =>
+      ((a.st = .normal ∨ a.st = .stoping ∨ a.st = .stopped) → AEv.ev true (Ev.finish true) ∈ tr) ∧
+      (a.stopML ≠ none → AEv.ev true (Ev.finish true) ∈ tr) ∧
+      (∀ p q, tr = p ++ AEv.begin false :: q → AEv.ev true (Ev.finish true) ∈ p))
+    (by simp [App.init])
+    (by
+      intro a tr done op ⟨ih1, ih2, ih3⟩
+      obtain ⟨s1, s2⟩ := start_success_step a op
+      refine ⟨?_, ?_, ?_⟩
+      · intro hst
+        rcases s1 hst with h | h | h
+        · exact List.mem_append_left _ (ih1 h)
+        · exact List.mem_append_left _ (ih2 h)
+        · exact List.mem_append_right _ h
+      · intro hml
+        rcases s2 hml with h | h
+        · exact List.mem_append_left _ (ih2 h)
+        · exact List.mem_append_left _ (ih1 (.inl h))
+      · intro p q heq
+        rcases List.append_eq_append_iff.mp heq with ⟨a', hp, hevs⟩ | ⟨c', htr, hc⟩
+        · have : AEv.begin false ∈ (a.step op).2 := by rw [hevs]; simp
+          rw [hp]
+          exact List.mem_append_left _ (ih1 (.inl (begin_stop_step a op this)))
+        · cases c' with
+          | nil =>
+            simp at hc htr
+            have : AEv.begin false ∈ (a.step op).2 := by rw [← hc]; simp
+            rw [← htr]
+            exact ih1 (.inl (begin_stop_step a op this))
+          | cons x c' =>
+            simp at hc
+            exact ih3 p c' (by rw [htr, hc.1]))
+    ops
+  exact ⟨h.1, h.2.2⟩
+
+/-- The start phase of the application *is* one `Filter` run: for every history, its
+events are `run n true cs` for a subsequence `cs` of the start-phase completions that were
+issued — so every theorem above applies to `App.Start` (and `finish` is forwarded unchanged). -/
+theorem app_start_phase_is_filter (n : Nat) (ops : List AOp) :
+    phaseEvs true (App.run n ops).2 = [] ∨
+    ∃ cs, cs.Sublist (opCalls true ops) ∧ phaseEvs true (App.run n ops).2 = run n true cs := by
+  have h := App.run_induction n
+    (fun a tr done => a.n = n ∧
+      ((a.st = .prepared ∧ a.startML = none ∧ a.stopML = none ∧ phaseEvs true tr = []) ∨
+       (a.st ≠ .prepared ∧ ∃ cs s, a.startML = some s ∧ cs.Sublist (opCalls true done) ∧
+          runFrom (filter n true).1 (filter n true).2 cs = (s, phaseEvs true tr))))
+    ⟨rfl, .inl ⟨rfl, rfl, rfl, rfl⟩⟩
+    (by
+      intro a tr done op ⟨hn, ih⟩
+      cases op with
+      | start =>
+        by_cases hp : a.st = .prepared
+        · rcases ih with ⟨_, _, _, hev⟩ | ⟨h, _⟩
+          · simp only [App.step, hp, ne_eq, not_true_eq_false, ↓reduceIte]
+            rcases onEvents_cases true (filter a.n true).2 { a with st := .starting, startML := some (filter a.n true).1 } with ⟨_, h⟩ | ⟨_, h⟩ <;>
+            · rw [h]
+              refine ⟨hn, .inr ⟨by simp, [], (filter n true).1, by simp [hn], List.nil_sublist _, ?_⟩⟩
+              rw [phaseEvs_append, hev]
+              simp [phaseEvs, phaseEvs_evs_same, runFrom, hn]
+          · exact absurd hp h
+        · simp only [App.step, hp, ne_eq, not_false_eq_true, ↓reduceIte, List.append_nil]
+          refine ⟨hn, ?_⟩
+          rcases ih with ⟨h, _⟩ | ⟨h, cs, s, h1, h2, h3⟩
+          · exact absurd h hp
+          · exact .inr ⟨(by first | trivial | assumption), cs, s, h1, by rw [opCalls_append]; simpa [opCalls] using h2, h3⟩
+      | stop =>
+        by_cases hnm : a.st = .normal
+        · rcases ih with ⟨h, _⟩ | ⟨h, cs, s, h1, h2, h3⟩
+          · rw [hnm] at h; cases h
+          · simp only [App.step, hnm, ne_eq, not_true_eq_false, ↓reduceIte]
+            rcases onEvents_cases false (filter a.n false).2 { a with st := .stoping, stopML := some (filter a.n false).1 } with ⟨_, h'⟩ | ⟨_, h'⟩ <;>
+            · rw [h']
+              refine ⟨hn, .inr ⟨by simp, cs, s, h1, by rw [opCalls_append]; simpa [opCalls] using h2, ?_⟩⟩
+              rw [phaseEvs_append]
+              simp [phaseEvs, phaseEvs_evs_other, h3]
+        · simp only [App.step, hnm, ne_eq, not_false_eq_true, ↓reduceIte, List.append_nil]
+          refine ⟨hn, ?_⟩
+          rcases ih with h | ⟨h, cs, s, h1, h2, h3⟩
+          · exact .inl h
+          · exact .inr ⟨h, cs, s, h1, by rw [opCalls_append]; simpa [opCalls] using h2, h3⟩
+      | call ph w b =>
+        cases ph with
+        | true =>
+          rcases ih with ⟨h0, h1, h2, h3⟩ | ⟨h, cs, s, h1, h2, h3⟩
+          · simp only [App.step, ↓reduceIte, h1, List.append_nil]
+            exact ⟨hn, .inl ⟨(by first | trivial | assumption), (by first | trivial | assumption), (by first | trivial | assumption), (by first | trivial | assumption)⟩⟩
+          · simp only [App.step, ↓reduceIte, h1]
+            have hsub : (cs ++ [(w, b)]).Sublist (opCalls true (done ++ [AOp.call true w b])) := by
+              rw [opCalls_append]; simp only [opCalls, ↓reduceIte]
+              exact List.Sublist.append h2 (List.Sublist.refl _)
+            have hrun : runFrom (filter n true).1 (filter n true).2 (cs ++ [(w, b)]) =
+                ((s.next b).1, phaseEvs true (tr ++ AEv.ev true (Ev.call w b) :: (s.next b).2.map (AEv.ev true))) := by
+              rw [runFrom_snoc, h3, phaseEvs_append]
+              simp [phaseEvs, phaseEvs_evs_same]
+            rcases onEvents_cases true (s.next b).2 { a with startML := some (s.next b).1 } with ⟨_, h'⟩ | ⟨_, h'⟩ <;>
+            · rw [h']
+              exact ⟨hn, .inr ⟨by simp [h], cs ++ [(w, b)], (s.next b).1, rfl, hsub, hrun⟩⟩
+        | false =>
+          rcases ih with ⟨h0, h1, h2, h3⟩ | ⟨h, cs, s, h1, h2, h3⟩
+          · simp only [App.step, Bool.false_eq_true, ↓reduceIte, h2, List.append_nil]
+            exact ⟨hn, .inl ⟨(by first | trivial | assumption), (by first | trivial | assumption), (by first | trivial | assumption), (by first | trivial | assumption)⟩⟩
+          · simp only [App.step, Bool.false_eq_true, ↓reduceIte]
+            have hsub : cs.Sublist (opCalls true (done ++ [AOp.call false w b])) := by
+              rw [opCalls_append]; simpa [opCalls] using h2
+            cases hml : a.stopML with
+            | none => simp only [List.append_nil]; exact ⟨hn, .inr ⟨h, cs, s, h1, hsub, h3⟩⟩
+            | some ml =>
+              simp only
+              have hev : phaseEvs true (tr ++ AEv.ev false (Ev.call w b) :: (ml.next b).2.map (AEv.ev false)) = phaseEvs true tr := by
+                rw [phaseEvs_append]; simp [phaseEvs, phaseEvs_evs_other]
+              rcases onEvents_cases false (ml.next b).2 { a with stopML := some (ml.next b).1 } with ⟨_, h'⟩ | ⟨_, h'⟩ <;>
+              · rw [h', hev]
+                exact ⟨hn, .inr ⟨by simp [h], cs, s, h1, hsub, h3⟩⟩)
+    ops
+  rcases h.2 with ⟨_, _, _, h⟩ | ⟨_, cs, s, _, h2, h3⟩
+  · exact .inl h
+  · exact .inr ⟨cs, h2, by simp [run, h3]⟩
+
+/-- The same for `App.Stop`: as long as the stop phase was begun at most once (always the
+case when the modules keep the discipline: only a second success report of the start phase can
+re-open the guard), its events are one `Filter` run in reverse order. -/
+theorem app_stop_phase_is_filter (n : Nat) (ops : List AOp) (h1 : begins false (App.run n ops).2 ≤ 1) :
+    phaseEvs false (App.run n ops).2 = [] ∨
+    ∃ cs, cs.Sublist (opCalls false ops) ∧ phaseEvs false (App.run n ops).2 = run n false cs := by
+  have h := App.run_induction n
+    (fun a tr done => a.n = n ∧
+      ((begins false tr = 0 ∧ a.stopML = none ∧ phaseEvs false tr = []) ∨
+       (begins false tr = 1 ∧ ∃ cs s, a.stopML = some s ∧ cs.Sublist (opCalls false done) ∧
+          runFrom (filter n false).1 (filter n false).2 cs = (s, phaseEvs false tr)) ∨
+       2 ≤ begins false tr))
+    ⟨rfl, .inl ⟨rfl, rfl, rfl⟩⟩
+    (by
+      intro a tr done op ⟨hn, ih⟩
+      have hmono : ∀ evs, 2 ≤ begins false tr → 2 ≤ begins false (tr ++ evs) := by
+        intro evs h; rw [begins_append]; omega
+      cases op with
+      | stop =>
+        by_cases hnm : a.st = .normal
+        · simp only [App.step, hnm, ne_eq, not_true_eq_false, ↓reduceIte]
+          have hb : begins false (tr ++ AEv.begin false :: (filter a.n false).2.map (AEv.ev false)) = begins false tr + 1 := by
+            rw [begins_append]
+            have : begins false (AEv.begin false :: (filter a.n false).2.map (AEv.ev false)) =
+                1 + begins false ((filter a.n false).2.map (AEv.ev false)) := by simp [begins, Nat.add_comm]
+            rw [this, begins_evs]
+          rcases onEvents_cases false (filter a.n false).2 { a with st := .stoping, stopML := some (filter a.n false).1 } with ⟨_, h'⟩ | ⟨_, h'⟩ <;>
+          · rw [h', hb]
+            refine ⟨hn, ?_⟩
+            rcases ih with ⟨h0, _, hev⟩ | ⟨h1', _⟩ | h2
+            · refine .inr (.inl ⟨by omega, [], (filter n false).1, by simp [hn], List.nil_sublist _, ?_⟩)
+              rw [phaseEvs_append, hev]
+              simp [phaseEvs, phaseEvs_evs_same, runFrom, hn]
+            · exact .inr (.inr (by omega))
+            · exact .inr (.inr (by omega))
+        · simp only [App.step, hnm, ne_eq, not_false_eq_true, ↓reduceIte, List.append_nil]
+          refine ⟨hn, ?_⟩
+          rcases ih with h | ⟨h, cs, s, h1', h2, h3⟩ | h
+          · exact .inl h
+          · exact .inr (.inl ⟨h, cs, s, h1', by rw [opCalls_append]; simpa [opCalls] using h2, h3⟩)
+          · exact .inr (.inr h)
+      | start =>
+        by_cases hp : a.st = .prepared
+        · simp only [App.step, hp, ne_eq, not_true_eq_false, ↓reduceIte]
+          have hb : begins false (tr ++ AEv.begin true :: (filter a.n true).2.map (AEv.ev true)) = begins false tr := by
+            rw [begins_append]
+            have : begins false (AEv.begin true :: (filter a.n true).2.map (AEv.ev true)) =
+                begins false ((filter a.n true).2.map (AEv.ev true)) := by simp [begins]
+            rw [this, begins_evs]; rfl
+          have hev : phaseEvs false (tr ++ AEv.begin true :: (filter a.n true).2.map (AEv.ev true)) = phaseEvs false tr := by
+            rw [phaseEvs_append]; simp [phaseEvs, phaseEvs_evs_other]
+          rcases onEvents_cases true (filter a.n true).2 { a with st := .starting, startML := some (filter a.n true).1 } with ⟨_, h'⟩ | ⟨_, h'⟩ <;>
+          · rw [h', hb, hev]
+            refine ⟨hn, ?_⟩
+            rcases ih with h | ⟨h, cs, s, h1', h2, h3⟩ | h
+            · exact .inl h
+            · exact .inr (.inl ⟨h, cs, s, h1', by rw [opCalls_append]; simpa [opCalls] using h2, h3⟩)
+            · exact .inr (.inr h)
+        · simp only [App.step, hp, ne_eq, not_false_eq_true, ↓reduceIte, List.append_nil]
+          refine ⟨hn, ?_⟩
+          rcases ih with h | ⟨h, cs, s, h1', h2, h3⟩ | h
+          · exact .inl h
+          · exact .inr (.inl ⟨h, cs, s, h1', by rw [opCalls_append]; simpa [opCalls] using h2, h3⟩)
+          · exact .inr (.inr h)
+      | call ph w b =>
+        cases ph with
+        | false =>
+          rcases ih with ⟨h0, h1', h3⟩ | ⟨h, cs, s, h1', h2, h3⟩ | h
+          · simp only [App.step, Bool.false_eq_true, ↓reduceIte, h1', List.append_nil]
+            exact ⟨hn, .inl ⟨h0, (by first | trivial | assumption), h3⟩⟩
+          · simp only [App.step, Bool.false_eq_true, ↓reduceIte, h1']
+            have hsub : (cs ++ [(w, b)]).Sublist (opCalls false (done ++ [AOp.call false w b])) := by
+              rw [opCalls_append]; simp only [opCalls, ↓reduceIte]
+              exact List.Sublist.append h2 (List.Sublist.refl _)
+            have hrun : runFrom (filter n false).1 (filter n false).2 (cs ++ [(w, b)]) =
+                ((s.next b).1, phaseEvs false (tr ++ AEv.ev false (Ev.call w b) :: (s.next b).2.map (AEv.ev false))) := by
+              rw [runFrom_snoc, h3, phaseEvs_append]
+              simp [phaseEvs, phaseEvs_evs_same]
+            have hb : begins false (tr ++ AEv.ev false (Ev.call w b) :: (s.next b).2.map (AEv.ev false)) = begins false tr := by
+              rw [begins_append]
+              have : begins false (AEv.ev false (Ev.call w b) :: (s.next b).2.map (AEv.ev false)) =
+                  begins false ((s.next b).2.map (AEv.ev false)) := by simp [begins]
+              rw [this, begins_evs]; rfl
+            rcases onEvents_cases false (s.next b).2 { a with stopML := some (s.next b).1 } with ⟨_, h'⟩ | ⟨_, h'⟩ <;>
+            · rw [h', hb]
+              exact ⟨hn, .inr (.inl ⟨h, cs ++ [(w, b)], (s.next b).1, rfl, hsub, hrun⟩)⟩
+          · simp only [App.step, Bool.false_eq_true, ↓reduceIte]
+            cases hml : a.stopML with
+            | none => simp only [List.append_nil]; exact ⟨hn, .inr (.inr h)⟩
+            | some ml =>
+              simp only
+              rcases onEvents_cases false (ml.next b).2 { a with stopML := some (ml.next b).1 } with ⟨_, h'⟩ | ⟨_, h'⟩ <;>
+              · rw [h']; exact ⟨hn, .inr (.inr (hmono _ h))⟩
+        | true =>
+          simp only [App.step, ↓reduceIte]
+          cases hml : a.startML with
+          | none =>
+            simp only [List.append_nil]
+            refine ⟨hn, ?_⟩
+            rcases ih with h | ⟨h, cs, s, h1', h2, h3⟩ | h
+            · exact .inl h
+            · exact .inr (.inl ⟨h, cs, s, h1', by rw [opCalls_append]; simpa [opCalls] using h2, h3⟩)
+            · exact .inr (.inr h)
+          | some ml =>
+            simp only
+            have hb : begins false (tr ++ AEv.ev true (Ev.call w b) :: (ml.next b).2.map (AEv.ev true)) = begins false tr := by
+              rw [begins_append]
+              have : begins false (AEv.ev true (Ev.call w b) :: (ml.next b).2.map (AEv.ev true)) =
+                  begins false ((ml.next b).2.map (AEv.ev true)) := by simp [begins]
+              rw [this, begins_evs]; rfl
+            have hev : phaseEvs false (tr ++ AEv.ev true (Ev.call w b) :: (ml.next b).2.map (AEv.ev true)) = phaseEvs false tr := by
+              rw [phaseEvs_append]; simp [phaseEvs, phaseEvs_evs_other]
+            rcases onEvents_cases true (ml.next b).2 { a with startML := some (ml.next b).1 } with ⟨_, h'⟩ | ⟨_, h'⟩ <;>
+            · rw [h', hb, hev]
+              refine ⟨hn, ?_⟩
+              rcases ih with h | ⟨h, cs, s, h1', h2, h3⟩ | h
+              · exact .inl h
+              · exact .inr (.inl ⟨h, cs, s, h1', by rw [opCalls_append]; simpa [opCalls] using h2, h3⟩)
+              · exact .inr (.inr h))
+    ops
+  rcases h.2 with ⟨_, _, h⟩ | ⟨_, cs, s, _, h2, h3⟩ | h
+  · exact .inl h
+  · exact .inr ⟨cs, h2, by simp [run, h3]⟩
+  · omega
+
+/-! non-vacuity for the App theorems: a complete life cycle (both phases begun exactly once, final
+state Stopped), and a Stop that is refused because start-up failed -/
+example :
+    let r := App.run 2 [.stop, .start, .start, .call true 0 true, .call true 1 true, .stop,
+                         .call false 1 true, .call false 0 true, .stop]
+    r.1.st = .stopped ∧ begins true r.2 = 1 ∧ begins false r.2 = 1 ∧
+    phaseEvs true r.2 = run 2 true [(0, true), (1, true)] ∧ phaseEvs false r.2 = run 2 false [(1, true), (0, true)] := by
+  decide
+example : (App.run 2 [.start, .call true 0 false, .stop]).1.st = .starting ∧
+    begins false (App.run 2 [.start, .call true 0 false, .stop]).2 = 0 := by decide
+
+/-! ## the modules shipped with the framework (translated from node/modules/** on every run) -/
+
+/-- **shipped modules complete exactly once**: the body of every `Start`/`Stop` under
+`node/modules` (as translated into `Gen.C11.shipped` from the working tree on this run)
+contains no construct the translator could not interpret, and under every assignment of
+its (opaque, independent) branch conditions it invokes the completion callback exactly once. -/
+theorem shipped_modules_complete_once :
+    ∀ m ∈ Cell2v.Gen.C11.shipped, m.body.clean = true ∧ ∀ σ : Nat → Bool, (m.body.exec σ).count = 1 := by
+  have h : (Cell2v.Gen.C11.shipped.all fun m => m.body.onceB) = true := by decide
+  intro m hm
+  exact Stmt.onceB_sound m.body (List.all_eq_true.mp h m hm)
+
+/-- the translator found the modules (the obligation above is not vacuous) -/
+theorem shipped_modules_found : Cell2v.Gen.C11.shipped ≠ [] := by decide
+
+/-- D2, as translated before the `fix:` commit (`return` missing after `next(false)` in
+`ClusterModule.Start`): the branch "StartMember failed" calls `next` twice. -/
+def d2Body : Stmt :=
+  .seq (.ite 0 (.seq (.callNext (some true)) .ret) .skip)
+    (.seq (.ite 1 (.seq (.callNext (some false)) .ret) .skip)
+      (.seq (.ite 2 (.callNext (some false)) .skip) (.callNext (some true))))
+
+theorem d2_completes_twice : d2Body.onceB = false ∧ (d2Body.exec fun c => c == 2).count = 2 := by decide
+
 end Cell2v.Props.C11
